@@ -57,6 +57,27 @@ structure Cfg.WF (c : Cfg) : Prop where
   entry : c.entry < 2 ^ 32
   nonzero : 0 < c.start + c.ivtOff
 
+/-! ### when `HabContainer.parse` can find the application -/
+
+/-- length of the exported image -/
+def Cfg.imgLen (c : Cfg) : Nat :=
+  if c.hasCsf then c.csfOff + HabConsts.csfSize else c.appOff + c.appBin.length
+
+/-- decidable condition on the configuration (and the final application bytes `app`: the padded application, or its
+    ciphertext) under which the reset-vector heuristic of `AppHabSegment.parse` returns the real application offset:
+    the second word of the application passes the test and no earlier probed offset (they lie in the DCD / XMCD / zero
+    fill in front of the application, which do not depend on the application) does -/
+def AppVisible (c : Cfg) (app : Bytes) : Prop :=
+  8 ≤ app.length ∧ vectorOk c.entry c.imgLen (leDec (slice app 4 4)) = true ∧
+  ∀ o ∈ HabConsts.knownAppOffsets, o < c.appOff →
+    vectorOk c.entry c.imgLen (leDec (slice (image c [] none) (o + 4) 4)) = false
+
+instance (c : Cfg) (app : Bytes) : Decidable (AppVisible c app) := by unfold AppVisible; exact inferInstance
+
+/-- DCD / XMCD end in front of the first probed word (offset 0x104): every earlier probe reads zero fill -/
+def Cfg.FrontQuiet (c : Cfg) : Prop :=
+  (∀ d, c.dcd = some d → d.length ≤ 0xC4) ∧ (∀ x, c.xmcd = some x → x.length ≤ 0xC4)
+
 /-! ### covering -/
 def Block.covers (b : Block) (off len : Nat) : Prop := b.start ≤ off ∧ off + len ≤ b.start + b.size
 
